@@ -136,8 +136,11 @@ ShmCases == {Case("shm", x.m, x.ok) : x \in ShmMsgs \cup ShmTextMsgs}
 \* ---------------------------------------------------------------- cascade.executor.msg
 W(h, w) == O(C \o "WorkerId", <<F("host", S(h)), F("worker", S(w))>>)
 Ds(t, o) == O(C \o "DatasetId", <<F("task", S(t)), F("output", S(o))>>)
-Workers == {W("h0", "w0"), W("", "")}
-Dss == {Ds("t1", "0"), Ds("", "")}
+\* host ids as real deployments have them (short name, FQDN, IP address, several dots, an address-like one) and worker names
+\* with digits and dots: the separator of the textual form "host.worker" / "task.output" occurs INSIDE the components, so
+\* only field-wise transport is faithful.  Decoded and original are compared field by field (host, worker), never by repr.
+Workers == {W("h0", "w0"), W("", ""), W("node-12.cluster", "w10"), W("10.0.0.7", "gpu.0"), W("a.b.c", "w0"), W("h:1", ".")}
+Dss == {Ds("t1", "0"), Ds("", ""), Ds("step.1:sum", "out.0")}
 Syn(i, a) == O(M \o "Syn", <<F("idx", I(i)), F("addr", a)>>)
 Ack(i) == O(M \o "Ack", <<F("idx", I(i))>>)
 WorkerRec(w, c, g, mem) == O(M \o "Worker", <<F("worker_id", w), F("cpu", I(c)), F("gpu", I(g)), F("memory_mb", I(mem))>>)
@@ -154,8 +157,9 @@ OtherMsgs ==
           : h \in {<<"h0", "h1">>, <<"", "">>}, a \in Addrs, ds \in Dss, i \in Idx}
   \cup {O(M \o c, <<F("host", S(h)), F("detail", d)>>) : c \in {"DatasetTransmitFailure", "ExecutorFailure"}, h \in {"h0", ""}, d \in Texts}
   \cup {O(M \o "ExecutorExit", <<F("host", S(h))>>) : h \in {"h0", ""}}
-  \cup {O(M \o "ExecutorRegistration", <<F("host", S("h0")), F("maddress", a), F("daddress", a), F("workers", L(ws))>>)
-          : a \in Addrs, ws \in {<<>>, <<WorkerRec(W("h0", "w0"), "1", "0", "1024"), WorkerRec(W("h0", "w1"), "64", "8", "4294967296")>>}}
+  \cup {O(M \o "ExecutorRegistration", <<F("host", S(h)), F("maddress", a), F("daddress", a), F("workers", L(ws))>>)
+          : h \in {"h0", "node-12.cluster"}, a \in Addrs, ws \in {<<>>, <<WorkerRec(W("h0", "w0"), "1", "0", "1024"), WorkerRec(W("h0", "w1"), "64", "8", "4294967296")>>,
+                            <<WorkerRec(W("node-12.cluster", "gpu.0"), "1", "1", "1"), WorkerRec(W("10.0.0.7", "w10"), "2", "0", "2")>>}}
   \cup {O(M \o "ExecutorShutdown", <<>>), O(M \o "WorkerShutdown", <<>>)}
   \cup {O(M \o "WorkerReady", <<F("worker", w)>>) : w \in Workers}
 Header(a, i, ds, df) == O(M \o "DatasetTransmitPayloadHeader", <<F("confirm_address", a), F("confirm_idx", I(i)), F("ds", ds), F("deser_fun", S(df))>>)
